@@ -66,6 +66,25 @@ impl<'a, T> ViaNoSlice for &Wrap<'a, T> {
     }
 }
 
+// ---- Default ----
+pub struct WrapTy<T>(pub std::marker::PhantomData<T>);
+pub trait ViaDefault<T> {
+    fn try_default_probe(&self) -> Option<T>;
+}
+impl<T: Default> ViaDefault<T> for WrapTy<T> {
+    fn try_default_probe(&self) -> Option<T> {
+        Some(T::default())
+    }
+}
+pub trait ViaNoDefault<T> {
+    fn try_default_probe(&self) -> Option<T>;
+}
+impl<T> ViaNoDefault<T> for &WrapTy<T> {
+    fn try_default_probe(&self) -> Option<T> {
+        None
+    }
+}
+
 type II<V> = <V as IntoIterator>::IntoIter;
 use vek::vec::repr_c::*;
 
@@ -123,6 +142,29 @@ pub fn try_slice_iter<I: 'static>(it: &I) -> Option<Vec<(u32, u32)>> {
     for_iter_types!(it, c => (&Wrap(c)).try_slice_probe();
         II<Vec2<Tok>>, II<Vec3<Tok>>, II<Vec4<Tok>>, II<Vec8<Tok>>, II<Vec16<Tok>>, II<Vec32<Tok>>, II<Vec64<Tok>>,
         II<Extent2<Tok>>, II<Extent3<Tok>>, II<Rgb<Tok>>, II<Rgba<Tok>>, II<Uv<Tok>>, II<Uvw<Tok>>,
+    );
+    None
+}
+
+/// `I::default()` iff the iterator type is `Default` (for element types `Tok` and row vectors).
+pub fn try_default_iter<I: 'static>() -> Option<I> {
+    macro_rules! probe_types {
+        ($($T:ty,)+) => {
+            $(
+                if std::any::TypeId::of::<I>() == std::any::TypeId::of::<$T>() {
+                    let r: Option<$T> = (&WrapTy::<$T>(std::marker::PhantomData)).try_default_probe();
+                    return r.map(|c| {
+                        let b: Box<dyn Any> = Box::new(c);
+                        *b.downcast::<I>().ok().expect("probe: type round trip")
+                    });
+                }
+            )+
+        };
+    }
+    probe_types!(
+        II<Vec2<Tok>>, II<Vec3<Tok>>, II<Vec4<Tok>>, II<Vec8<Tok>>, II<Vec16<Tok>>, II<Vec32<Tok>>, II<Vec64<Tok>>,
+        II<Extent2<Tok>>, II<Extent3<Tok>>, II<Rgb<Tok>>, II<Rgba<Tok>>, II<Uv<Tok>>, II<Uvw<Tok>>,
+        II<Vec2<Vec2<Tok>>>, II<Vec3<Vec3<Tok>>>, II<Vec4<Vec4<Tok>>>,
     );
     None
 }
